@@ -100,7 +100,7 @@ func (t *totality) panics(reachFromOps func(f *types.Func) bool) {
 							nS++
 							skey := fb.Name + ": switch " + types.ExprString(op) + ".(type) over " + iface
 							missing, hasDefault, cases := p.switchCoverage(ts, iface)
-							nilOK := p.nilGuarded(list, i-1, identOf(op))
+							nilOK := p.nilGuarded(list, i-1, identOf(op)) || caseNilReturns(ts)
 							switch {
 							case hasDefault:
 								c.OK(srule, skey, ts.Pos(), "default clause handles the rest")
@@ -131,7 +131,7 @@ func (t *totality) panics(reachFromOps func(f *types.Func) bool) {
 						nS++
 						skey := fb.Name + ": switch " + types.ExprString(op) + ".(type) over " + iface
 						missing, _, cases := p.switchCoverage(ts, iface)
-						nilOK := p.nilGuarded(enclosing[ts], indexOf(enclosing[ts], ts), identOf(op))
+						nilOK := p.nilGuarded(enclosing[ts], indexOf(enclosing[ts], ts), identOf(op)) || caseNilReturns(ts)
 						if t.switchReach != nil {
 							if ok, why := t.switchReach(fb, ts, missing); ok {
 								c.OK(srule, skey, ts.Pos(), why)
@@ -178,7 +178,7 @@ func (t *totality) panics(reachFromOps func(f *types.Func) bool) {
 				if t.extraPanic != nil && t.extraPanic(fb, list, i, key) {
 					continue
 				}
-				c.Bad(rule, key, st.Pos(), "explicit panic on a path not shown unreachable")
+				c.Unk(rule, key, st.Pos(), "explicit panic whose reachability this rule cannot decide (not behind a sealed type switch, not a registration or Must* helper)")
 			}
 		}
 	}
@@ -192,4 +192,19 @@ func indexOf(list []ast.Stmt, s ast.Stmt) int {
 		}
 	}
 	return 0
+}
+
+// caseNilReturns: the switch has a `case nil:` clause that returns.
+func caseNilReturns(ts *ast.TypeSwitchStmt) bool {
+	for _, cl := range ts.Body.List {
+		cc := cl.(*ast.CaseClause)
+		for _, e := range cc.List {
+			if id, ok := e.(*ast.Ident); ok && id.Name == "nil" && len(cc.Body) > 0 {
+				if _, ok := cc.Body[len(cc.Body)-1].(*ast.ReturnStmt); ok {
+					return true
+				}
+			}
+		}
+	}
+	return false
 }
